@@ -564,7 +564,7 @@ pub fn check(kind: Kind, cfg: Cfg, imp: Imp, seq: &[Sym], out: &RunOut, tolerant
             });
             continue;
         }
-        if imp == Imp::Hosted {
+        if imp == Imp::Hosted && st.linked.is_some() {
             let want_linked = r.link != Link::Unlinked && !r.terminated;
             if st.linked != Some(want_linked) || st.stopped != Some(r.terminated) {
                 c.mismatch = Some(Mismatch {
